@@ -234,7 +234,8 @@ class FnExec:
         if result is not None:
             ns["result"] = result
         ns["defined"] = lambda a, i: a.defined(i)
-        ns["length"] = lambda a: a.length
+        ns.setdefault("length", lambda a: a.length)
+        ns["len_"] = lambda a: a.length
         ns["alive"] = lambda a: a.alive
         ns["isdef"] = lambda name: state.vars[name][1]
         if extra:
